@@ -113,6 +113,10 @@ type StreamCfg struct {
 	WriteFaults         []WriteFault `json:"write_faults,omitempty"`
 	PipeCap             int          `json:"pipe_cap,omitempty"`
 	PipeChunk           int          `json:"pipe_chunk,omitempty"`
+	// PipePeers: that many more encoder|pipe|decoder chains run at the same
+	// time under the same scheduler, each with a document and a pipe of its
+	// own (users of the library in other goroutines of the process).
+	PipePeers int `json:"pipe_peers,omitempty"`
 	// Mutated: the stream was byte-mutated after generation, so it may leave
 	// the unambiguous grammar: the reference tree is not compared, only the
 	// delivery independence, the fix-point and the read-error oracle apply.
@@ -576,6 +580,7 @@ func genRoundTripCase(prop, tier string, r *rand.Rand) *Case {
 	if r.IntN(3) == 0 {
 		cfg.PipeCap = pick(r, []int{1, 1, 2, 4, 64, 4096})
 		cfg.PipeChunk = pick(r, []int{0, 1, 2, 3, 7, 100})
+		cfg.PipePeers = pick(r, []int{0, 1, 1, 2})
 	}
 	c := &Case{Prop: prop, Engine: "stream", Stream: cfg}
 	c.Sim = GenSim(r)
@@ -860,10 +865,31 @@ func runRoundTrip(t *testing.T, c *Case, cr *CaseResult) *CaseResult {
 		}
 	}
 
-	// encoder -> bounded pipe -> decoder, both ends scheduled
+	// encoder -> bounded pipe -> decoder, both ends scheduled; with peers,
+	// several such chains at once, each with its own document and pipe
 	if cfg.PipeCap > 0 {
-		var out decodeOutcome
-		var encErr error
+		type chain struct {
+			doc    *gedcom.Document
+			want   string
+			bom    bool
+			out    decodeOutcome
+			encErr error
+		}
+		chains := []*chain{{doc: doc, want: want, bom: cfg.HasBOM}}
+		for i := 0; i < cfg.PipePeers; i++ {
+			var peer *gedcom.Document
+			var perr error
+			if i == 0 {
+				peer, perr = decode(pipeNeighbour)
+			} else {
+				// the same text again, as a document of its own
+				peer, perr = gedcom.NewDecoder(bytes.NewReader(text)).Decode()
+			}
+			if perr != nil {
+				break
+			}
+			chains = append(chains, &chain{doc: peer, want: dumpForest(fromDoc(peer), true), bom: peer.HasBOM})
+		}
 		res, _ := runSim(t, cr, prop, c.Sim, func() {
 			// every chunk is a handful of scheduler decisions: a document with
 			// a very long line goes through in pieces of at least 4 KB so that
@@ -872,38 +898,62 @@ func runRoundTrip(t *testing.T, c *Case, cr *CaseResult) *CaseResult {
 			if len(text) > 50000 && chunk < 4096 {
 				chunk = 4096
 			}
-			p := &simPipe{ch: make(chan []byte, cfg.PipeCap), chunk: chunk}
-			done := make(chan struct{})
-			simrt.Go("harness:encoder", func() {
-				encErr = gedcom.NewEncoder(p, doc).Encode()
-				p.Close()
-			})
-			simrt.Go("harness:decoder", func() {
-				defer func() {
-					if pv := recover(); pv != nil {
-						out.panicVal = fmt.Sprint(pv)
-					}
-					simrt.Yield("harness:done")
-					close(done)
-				}()
-				out.doc, out.err = gedcom.NewDecoder(p).Decode()
-			})
-			simrt.Yield("harness:wait")
-			<-done
-			simrt.Yield("harness:wait+")
+			done := make(chan struct{}, len(chains))
+			for _, ch := range chains {
+				ch := ch
+				p := &simPipe{ch: make(chan []byte, cfg.PipeCap), chunk: chunk}
+				simrt.Go("harness:encoder", func() {
+					ch.encErr = gedcom.NewEncoder(p, ch.doc).Encode()
+					p.Close()
+				})
+				simrt.Go("harness:decoder", func() {
+					defer func() {
+						if pv := recover(); pv != nil {
+							ch.out.panicVal = fmt.Sprint(pv)
+						}
+						simrt.Yield("harness:done")
+						done <- struct{}{}
+					}()
+					ch.out.doc, ch.out.err = gedcom.NewDecoder(p).Decode()
+				})
+			}
+			for range chains {
+				simrt.Yield("harness:wait")
+				<-done
+				simrt.Yield("harness:wait+")
+			}
 		})
 		cr.count("stream.pipe", 1)
+		cr.count("stream.pipe_peers", int64(len(chains)-1))
 		if res.Outcome != "completed" {
 			cr.violate(prop+"/roundtrip", "encode|decode through a pipe: "+res.Outcome, fmt.Sprintf("%+v", res.Leaked))
 		} else {
-			if encErr != nil {
-				cr.violate(prop+"/roundtrip", "encode failed without any fault", encErr.Error())
+			for i, ch := range chains {
+				if ch.encErr != nil {
+					cr.violate(prop+"/roundtrip", "encode failed without any fault", ch.encErr.Error())
+				}
+				what := fmt.Sprintf("pipe cap=%d chunk=%d", cfg.PipeCap, cfg.PipeChunk)
+				if i > 0 {
+					// a neighbour's document, judged like the case's own
+					what += fmt.Sprintf(" (document of concurrent chain %d of %d)", i+1, len(chains))
+					saved := want
+					want = ch.want
+					check(what, ch.out, ch.bom)
+					want = saved
+					continue
+				}
+				if len(chains) > 1 {
+					what += fmt.Sprintf(" (with %d concurrent chains of other documents)", len(chains)-1)
+				}
+				check(what, ch.out, ch.bom)
 			}
-			check(fmt.Sprintf("pipe cap=%d chunk=%d", cfg.PipeCap, cfg.PipeChunk), out, cfg.HasBOM)
 		}
 	}
 	return cr
 }
+
+// pipeNeighbour is the document of the second chain of a concurrent pipe run.
+const pipeNeighbour = "0 HEAD\n1 CHAR UTF-8\n0 @N1@ INDI\n1 NAME Neighbour /Of Another Document/\n1 SEX F\n1 BIRT\n2 DATE 1 JAN 1900\n2 PLAC Somewhere, Far Away\n0 @N2@ INDI\n1 NAME Second /Neighbour/\n1 NOTE a line that is rather longer than the lines of the generated documents usually are\n0 @NF1@ FAM\n1 HUSB @N2@\n1 WIFE @N1@\n0 TRLR\n"
 
 func clip(s string, n int) string {
 	if len(s) > n {
@@ -1275,9 +1325,11 @@ func genTotalityCase(prop, tier string, r *rand.Rand) *Case {
 	case 7: // walks over the levels: records that end deep, lines that skip levels
 		n := 3 + r.IntN(10)
 		level := 0
+		lastOfRecord := 0 // the level the record before this one ended at
 		b = append(b, "0 HEAD\n"...)
 		for i := 0; i < n; i++ {
-			switch r.IntN(5) {
+			was := level
+			switch r.IntN(6) {
 			case 0:
 				level = 0
 			case 1:
@@ -1288,6 +1340,16 @@ func genTotalityCase(prop, tier string, r *rand.Rand) *Case {
 				if level > 0 {
 					level--
 				}
+			case 4:
+				if level == 0 {
+					// the first line of a record is on the level the record
+					// before it ended at (state kept from line to line must
+					// not leak across records)
+					level = lastOfRecord
+				}
+			}
+			if level == 0 && was != 0 {
+				lastOfRecord = was
 			}
 			if level > 6 {
 				level = r.IntN(4)
@@ -1399,8 +1461,35 @@ func genTotalityCase(prop, tier string, r *rand.Rand) *Case {
 			b = append(b, '\n')
 		}
 	}
-	if r.IntN(5) == 0 {
+	switch r.IntN(10) {
+	case 0, 1:
 		b = append([]byte{0xef, 0xbb, 0xbf}, b...)
+	case 2:
+		// the marks of other encodings and parts of marks, in front of the
+		// text as it is or of the text in two bytes per character (a file
+		// saved as "Unicode"), possibly cut in the middle of a character
+		mark := pick(r, [][]byte{{0xff, 0xfe}, {0xfe, 0xff}, {0xff, 0xfe, 0, 0}, {0, 0, 0xfe, 0xff}, {0xef, 0xbb}, {0xef}, {0xff}, {0xfe}, {0x2b, 0x2f, 0x76, 0x38}, {0xef, 0xbb, 0xbf, 0xef, 0xbb, 0xbf}})
+		if len(b) > 2000 {
+			b = b[:2000]
+		}
+		switch r.IntN(3) {
+		case 0:
+			var w []byte
+			for _, c := range b {
+				if len(mark) > 0 && mark[0] == 0xfe {
+					w = append(w, 0, c)
+				} else {
+					w = append(w, c, 0)
+				}
+			}
+			b = w
+			if r.IntN(2) == 0 && len(b) > 0 {
+				b = b[:len(b)-1]
+			}
+		case 1:
+			b = b[:r.IntN(len(b)+1)]
+		}
+		b = append(append([]byte(nil), mark...), b...)
 	}
 	cfg.Segments = bytesToSegs(b)
 	cfg.Plans = genReadPlans(r, len(b), 3)
